@@ -90,6 +90,54 @@ theorem login_success (s : GS) (u : String) (l : Nat) (hs : s.uid = "") :
     login s (.ok u l true false false) = ({ s with uid := u, lvl := l }, 200, true) := by
   unfold login; simp [hs]
 
+/-! ### credential validation (validators configured for the account's level) -/
+
+/-- without anything missing the login is the one above -/
+theorem loginV_complete (s : GS) (o : AuthOutcome) :
+    (loginV s o false).1 = (login s o).1 ∧ (loginV s o false).2.1 = (login s o).2.1 ∧ (loginV s o false).2.2.1 = (login s o).2.2 := by
+  unfold loginV login
+  split
+  · exact ⟨rfl, rfl, rfl⟩
+  · cases o with
+    | unknownScheme => exact ⟨rfl, rfl, rfl⟩
+    | error c => exact ⟨rfl, rfl, rfl⟩
+    | ok u l so nl ch => cases so <;> cases ch <;> cases nl <;> exact ⟨rfl, rfl, rfl⟩
+
+/-- **a login which requires more credential validation leaves the session unauthenticated**, whatever the authenticator answered -/
+theorem missing_credentials_leave_unauthenticated (s : GS) (o : AuthOutcome) : (loginV s o true).1 = s := by
+  unfold loginV
+  split
+  · rfl
+  · cases o with
+    | unknownScheme => rfl
+    | error c => rfl
+    | ok u l so nl ch => cases so <;> cases ch <;> rfl
+
+/-- … and the token handed out with the request for validation does not say "validated": presenting it goes through the check again -/
+theorem token_validated_only_when_complete (s : GS) (o : AuthOutcome) (m : Bool) (h : (loginV s o m).2.2.2 = true) :
+    m = false ∧ (loginV s o m).2.1 = 200 := by
+  unfold loginV at h ⊢
+  split at h
+  · cases h
+  · cases o with
+    | unknownScheme => cases h
+    | error c => cases h
+    | ok u l so nl ch =>
+      rename_i hs
+      rw [if_neg hs]
+      cases so <;> cases ch <;> cases m <;> cases nl <;> simp_all
+
+/-- when something is missing: not for a record which says "validated" itself, not for a level without validators, not for an account
+which has a validated credential - and in every other case -/
+theorem cred_missing_iff (v r c : Bool) : credMissing v r c = true ↔ (v = false ∧ r = true ∧ c = false) := by
+  cases v <;> cases r <;> cases c <;> simp [credMissing]
+
+/-- the two tokens of a two-step history: the first login lacks the credential (300), the token it got is presented: still 300 -/
+example : let s : GS := { ver := 22 }
+    let step1 := loginV s (.ok "U1" lvlAuth true false false) (credMissing false true false)
+    let step2 := loginV step1.1 (.ok "U1" lvlAuth true false false) (credMissing step1.2.2.2 true false)
+    step1.2.1 = 300 ∧ step2.2.1 = 300 ∧ step2.1.uid = "" := by decide
+
 /-- the protocol version cannot be changed after the handshake -/
 theorem version_immutable (s : GS) (v : String) (h : s.ver ≠ 0) : (hello s v).1 = s := by
   unfold hello
